@@ -173,8 +173,17 @@ def r5(R, repo):
     f = mod.func(qual)
     c = cfg_of(f)
     chk = _nodes_calling(c, f, {'_check_overwrite_error'})
-    if not chk and evid.calls_deep(repo, f, evid.call_named('_check_overwrite_error')):
-      R.unsure(key_of(f, 'overwrite check dominates every write'), f, '_check_overwrite_error is called from a helper')
+    deep = evid.calls_deep(repo, f, evid.call_named('_check_overwrite_error')) if not chk else []
+    if not chk and deep:
+      # moved into the nested task function that is handed to the async manager: the refusal then happens on the worker
+      # thread, after save_checkpoint has already returned
+      deferred = [(g_, x_) for g_, x_ in deep if g_.qual.startswith(f.qual + '.') and any(
+          astu.call_tail(y_) == 'save_async' and any(isinstance(a_, ast.Name) and a_.id == g_.name for a_ in y_.args) for y_ in astu.func_calls(f))]
+      if deferred:
+        g_, x_ = deferred[0]
+        R.fail(key_of(f, 'overwrite check dominates every write'), (g_, x_), '%s runs _check_overwrite_error inside `%s`, the task it hands to async_manager.save_async: with an async manager the save is accepted and the error is raised on the worker thread later (or never observed), instead of refusing the save before anything is touched' % (qual, g_.name))
+      else:
+        R.unsure(key_of(f, 'overwrite check dominates every write'), f, '_check_overwrite_error is called from a helper')
       continue
     if not chk:
       R.fail(key_of(f, 'overwrite check dominates every write'), f, '%s never calls _check_overwrite_error: a save at an existing or older step would silently proceed' % qual)
@@ -329,6 +338,15 @@ def r8(R, repo):
     may, must = evid.reach_env(c, {'os.path.exists(dst)': True, 'overwrite': False, 'io_mode == BackendMode.DEFAULT': True, 'io_mode == BackendMode.TF': False})
     key = key_of(f, 'refuses to clobber unless overwrite')
     msg = 'io.%s must raise AlreadyExistsError when dst exists and overwrite is false, before acting, in both back-ends' % name
+    if name == 'rename':
+      # the rename is the commit point of a checkpoint save: it has to replace the destination in one step
+      dst = astu.params(f.node)[1] if len(astu.params(f.node)) > 1 else 'dst'
+      wipe = [x for x in astu.func_calls(f) if (astu.call_name(x) or '') in ('os.remove', 'os.unlink', 'shutil.rmtree', 'os.rmdir', 'gfile.remove', 'gfile.rmtree', 'remove', 'rmtree') and x.args and astu.src(x.args[0]) == dst]
+      kw = key_of(f, 'replaces the destination in one step')
+      if wipe:
+        R.fail(kw, (f, wipe[0]), 'io.rename deletes the destination (`%s`) before renaming: between the two steps neither the old nor the new checkpoint exists under the final name, so a crash there loses the checkpoint that was being overwritten' % astu.short(wipe[0]))
+      else:
+        R.ok(kw, f)
     if acts and any(a in must for a in acts):
       R.fail(key, f, msg + ': `%s` is reached with dst existing and overwrite false' % astu.short([a for a in acts if a in must][0].stmt))
     elif ok:
